@@ -377,6 +377,8 @@ class BlockParser(Parser[BlockState]):
             > a block quote starts
             > with right arrows
         """
+        # the block that ends the quote is parsed during extraction and may leave several tokens
+        tok_index = len(state.tokens)
         text, end_pos = self.extract_block_quote(m, state)
         # scan children state
         child = state.child_state(text)
@@ -389,7 +391,7 @@ class BlockParser(Parser[BlockState]):
         self.parse(child, rules)
         token = {"type": "block_quote", "children": child.tokens}
         if end_pos:
-            state.prepend_token(token)
+            state.tokens.insert(tok_index, token)
             return end_pos
         state.append_token(token)
         return state.cursor
